@@ -250,6 +250,60 @@ OVERFLOW = [
 CONSTS = ["null", "0", "1", "-1", "2", "true", "false"]
 
 
+MATRIX_COLS = [("si", "smallint", ["1", "-2", "null"]), ("i", "int", ["3", "0", "null"]), ("bi", "bigint", ["10000000000", "1", "null"]),
+               ("d", "double", ["1.5", "-0.5", "null"]), ("e", "decimal(10,2)", ["2.50", "1.00", "null"]), ("p", "boolean", ["true", "false", "null"]),
+               ("s", "varchar", ["'2024-01-05'", "'7'", "null"]), ("dt", "date", ["date '2024-01-05'", "date '2023-12-31'", "null"]),
+               ("ts", "timestamp", ["timestamp '2024-01-05 00:00:01'", "timestamp '2023-01-01 10:00:00'", "null"]),
+               ("iv", "interval", ["interval '1' day", "interval '2' month", "null"]), ("bl", "blob", ["'ab'", "'7'", "null"])]
+MATRIX_LITS = [("1", "int-literal"), ("1.5", "decimal-literal"), ("'2024-01-01'", "string-literal"), ("null", "null-literal"), ("true", "bool-literal"),
+               ("date '2024-01-01'", "date-literal"), ("interval '1' day", "interval-literal")]
+MATRIX_OPS = ["+", "-", "*", "/", "%", "=", "<>", "<", "<=", ">", ">=", "and", "or", "||", "like"]
+MIRROR = {"=": "=", "<>": "<>", "<": ">", ">": "<", "<=": ">=", ">=": "<="}
+MATRIX_SETUP = 4
+MATRIX_DONE = {}
+
+
+def operand_type(x):
+    for n, t, _ in MATRIX_COLS:
+        if x == n:
+            return t.split("(")[0]
+    return dict(MATRIX_LITS)[x]
+
+
+def matrix_scripts():
+    operands = [c[0] for c in MATRIX_COLS] + [l[0] for l in MATRIX_LITS]
+    pairs = [(x, y) for x in operands for y in operands if not (x in dict(MATRIX_LITS) and y in dict(MATRIX_LITS))]
+    # the mirrored operator is evaluated first, so that the mirror oracle finds its results
+    order = ["=", "<>", ">", ">=", "<", "<=", "+", "-", "*", "/", "%", "and", "or", "||", "like"]
+    return [(op, pairs) for op in order]
+
+
+MATRIX_TARGETS = ["smallint", "int", "bigint", "double", "decimal(10,2)", "decimal", "boolean", "varchar", "date", "timestamp", "interval", "blob"]
+MATRIX_UNARY = ["- {x}", "not {x}", "{x} is null", "{x} is not null", "extract(year from {x})", "extract(day from {x})", "case when {x} is null then null else {x} end",
+                "{x} in ({x})", "coalesce({x}, {x})", "nullif({x}, {x})", "count({x})", "min({x})", "max({x})", "sum({x})", "avg({x})", "count(distinct {x})"]
+
+
+def unary_matrix():
+    """(label, [(sql, operand, form)]) : casts to every type and unary operators / functions / aggregates of every operand"""
+    operands = [c[0] for c in MATRIX_COLS] + [l[0] for l in MATRIX_LITS]
+    casts = [(f"select cast({x} as {t}) from ty", x, f"cast as {t.split('(')[0]}") for x in operands for t in MATRIX_TARGETS]
+    unary = [("select " + f.format(x=x) + " from ty", x, f.format(x="x")) for x in operands for f in MATRIX_UNARY]
+    return [("cast", casts), ("unary", unary)]
+
+
+def matrix_script(m):
+    op, pairs = m
+    if op in ("cast", "unary"):
+        steps = matrix_script(("=", []))["steps"]
+        return {"id": 0, "engine": "mem", "steps": steps + [{"sql": q[0]} for q in pairs]}
+    steps = [{"sql": "create table ty(" + ", ".join(f"{n} {t}" for n, t, _ in MATRIX_COLS) + ")"}]
+    for k in range(3):
+        steps.append({"sql": "insert into ty values (" + ", ".join(v[k] for _, _, v in MATRIX_COLS) + ")"})
+    assert len(steps) == MATRIX_SETUP
+    steps += [{"sql": f"select {x} {op} {y} from ty"} for x, y in pairs]
+    return {"id": 0, "engine": "mem", "steps": steps}
+
+
 def const_exprs():
     ints = ["null", "0", "1", "-1", "2"]
     bools = ["null", "true", "false"]
@@ -477,6 +531,56 @@ def run(tier, seed):
                 chk.ok(core.case_id(c), outcome="cast-out-of-range-reported")
             else:
                 chk.fail(core.case_id(c), "out-of-range-cast-not-an-error", c, x, outcome="cast")
+    # ---- operand type matrix: every binary operator x every ordered pair of operand types (a column of each type, and
+    # literals). Whatever the type checker accepts must have a kernel: the statement returns rows or a *data* error
+    # (overflow, out of range, unparsable text), never "no function .." and never a panic; and the mirrored comparison
+    # (x < y vs y > x, x = y vs y = x) gives the same column.
+    ms = matrix_scripts()
+    for (op, pairs), r in zip(ms, runner.run_many("sql", [matrix_script(m) for m in ms], timeout=300)):
+        if r.get("abort") or any(U.status(x) not in ("rows", "ok") for x in r["results"][:MATRIX_SETUP]):
+            chk.machinery(f"type matrix setup failed for {op}: {json.dumps(r)[:300]}")
+            continue
+        rs = r["results"][MATRIX_SETUP:]
+        by_pair = {}
+        for (x, y), res in zip(pairs, rs):
+            c = {"matrix": f"{x} {op} {y}"}
+            cid = core.case_id(c)
+            st = U.status(res)
+            if st in ("err:bind", "err:parse"):
+                chk.skip("type checker rejects")
+                continue
+            msg = json.dumps(res)
+            if st != "rows" and ("no function" in msg or "panicked" in msg or "not supported" in msg or st in ("panic", "abort", "ok_with_task_panic")):
+                chk.fail(cid, f"accepted-but-not-evaluable:{op}:{operand_type(x)},{operand_type(y)}", c, res, outcome="no-kernel")
+                continue
+            by_pair[(x, y)] = res
+            mirror = MIRROR.get(op)
+            if mirror and (y, x) in MATRIX_DONE.get(mirror, {}):
+                other = MATRIX_DONE[mirror][(y, x)]
+                if U.is_rows(res) and U.is_rows(other) and res["rows"] != other["rows"]:
+                    chk.fail(cid, f"mirrored-comparison-differs:{op}:{operand_type(x)},{operand_type(y)}", c, {"this": res["rows"], f"{y} {mirror} {x}": other["rows"]}, outcome="mirror")
+                    continue
+            chk.ok(cid, nontrivial=st == "rows", outcome="matrix:" + ("rows" if st == "rows" else "data-error"), sample={"case": c})
+        MATRIX_DONE[op] = by_pair
+    # (a cast the engine does not have is reported by the cast itself at run time, "no cast X -> Y": the type checker gives
+    #  every CAST its target type and leaves the decision to the kernel, so that is a rejection, not a missing kernel)
+    um = unary_matrix()
+    for (label, qs), r in zip(um, runner.run_many("sql", [matrix_script(m) for m in um], timeout=300)):
+        if r.get("abort") or any(U.status(x) not in ("rows", "ok") for x in r["results"][:MATRIX_SETUP]):
+            chk.machinery(f"type matrix setup failed for {label}: {json.dumps(r)[:300]}")
+            continue
+        for (sql, x, form), res in zip(qs, r["results"][MATRIX_SETUP:]):
+            c = {"matrix": sql}
+            cid = core.case_id(c)
+            st = U.status(res)
+            if st in ("err:bind", "err:parse"):
+                chk.skip("type checker rejects")
+                continue
+            msg = json.dumps(res)
+            if st != "rows" and ("no function" in msg or "panicked" in msg or "not supported" in msg or st in ("panic", "abort", "ok_with_task_panic")):
+                chk.fail(cid, f"accepted-but-not-evaluable:{form}:{operand_type(x)}", c, res, outcome="no-kernel")
+                continue
+            chk.ok(cid, nontrivial=st == "rows", outcome="matrix:" + ("rows" if st == "rows" else "data-error"), sample={"case": c})
     # ---- overflow must be an error
     scripts = []
     for q, data in OVERFLOW:
